@@ -7,7 +7,11 @@
 #include "hcommon.hpp"
 
 using namespace pops;
-using namespace verif;
+using ::verif::bits;
+using ::verif::guarded;
+using ::verif::ints;
+using ::verif::for_each_case;
+using ::verif::split_ws;
 
 static std::string sdate(const Date& d)
 {
